@@ -53,10 +53,12 @@ DOCS = [None, True, 0, 1.5, "s", [], {}, [1, "a", [2], {"a": 1}], {"a": [1, 2], 
         [{"a": "ab", "b": "("}, {"a": "ab", "b": "a{99999999999999999999}"}, {"a": "ab", "b": "\\"}, {"a": "ab", "b": "(?<=a+)b"},
          {"a": "ab", "b": "\\1"}, {"a": "ab", "b": "(?P<n>a)(?P<n>b)"}, {"a": "ab", "b": "*"}, {"a": "ab", "b": "[z-a]"}],
         # JSON texts (a str argument is JSON text) of documents that are strings whose content looks like broken JSON text
-        '"{"', '"[1, 2"', '"[1]"']
+        '"{"', '"[1, 2"', '"[1]"',
+        # a JSON text holding an integer with more digits than the interpreter converts by default
+        "[" + "1" * 5000 + "]"]
 
 P_SIGMA = ["/", "~", "0", "1", "-", "+", "#", "\\", "u", "x", "a", "%", " ", "é"]
-BASES = ["", "/a", "/0/1", "/a/b/2", "/a/²", "/a/①/b", "/٣", "/a/1²"]
+BASES = ["", "/a", "/0/1", "/a/b/2", "/a/²", "/a/①/b", "/٣", "/a/1²", "/a/-5", "/9/9"]
 
 
 BIGN = "9" * 5000
@@ -71,7 +73,9 @@ def extreme_queries():
                 "$[?@[%s]]" % n, "$[?length(@) == %s]" % n, "$[?@ in [%s]]" % n, "$..[%s]" % n]
     for rx in REGEX_BAD:
         out += ["$[?@.a =~ /%s/]" % rx, "$[?@ =~ /%s/i]" % rx, "$[?@ =~ /%s/a]" % rx, "$[?@ =~ /%s/aims]" % rx, "$[?match(@.a, '%s')]" % rx.replace("'", ""), "$[?search(@, \"%s\")]" % rx.replace('"', "")]
-    # (chains are kept below a hundred links: deeper structures are outside the claim)
+    # flat chains of many links: operands of one && / ||, and segments of one query, are siblings, not nesting levels
+    out += ["$[?" + " && ".join(["@.a"] * 600) + "]", "$[?" + " || ".join(["@.a == 1"] * 600) + "]", "$" + ".a" * 1200, "$" + "[0]" * 1200]
+    # (chains of ! and parentheses are kept below a hundred links: deeper nesting is outside the claim)
     out += ["$" + ".a" * 90, "$" + "[0]" * 90, "$[?" + "!" * 90 + "@]", "$[?@" + " && @" * 90 + "]", "$[?@" + " || @ && !@" * 45 + "]",
             "$['" + "a" * 100000 + "']",
             # unterminated quotes followed by runs that invite catastrophic backtracking in the lexer's own patterns
@@ -94,6 +98,9 @@ def extreme_relative():
     out = []
     for n in (BIGN, "0" + BIGN):
         out += [n, n + "#", n + "/a", "0+" + n, "0-" + n, "1+" + n + "#", "0+" + n + "/a", n + "+" + n]
+    # offsets just inside the interpreter's integer/string conversion limit (4300 digits): the sum crosses it
+    for k in (4299, 4300, 4301):
+        out += ["0+" + "9" * k, "0-" + "9" * k, "0+" + "9" * k + "#", "1+" + "9" * k + "/a"]
     return out
 
 
